@@ -297,6 +297,63 @@ def very_deep_case(d, kind="template"):
     return None
 
 
+NEST_KINDS = ("name", "arg-known", "arg-unknown", "link", "default", "mixed")
+NEST_MODES = ("all", "pre_expand", "only", "except", "no-parserfns")
+
+
+def nest_text(d, kind):
+    text = "core"
+    for i in range(d):
+        k = kind if kind != "mixed" else NEST_KINDS[i % 5]
+        if k == "name":
+            text = "{{ " + text + " }}"
+        elif k == "arg-known":
+            text = "{{tb|" + text + "}}"
+        elif k == "arg-unknown":
+            text = "{{nosuch|" + text + "|k=" + ("v" if i % 2 else text[:0]) + "}}"
+        elif k == "link":
+            text = "[[a|" + text + "]]"
+        else:
+            text = "{{{nosucharg|" + text + "}}}"
+    return text
+
+
+def nested_case(d, kind, mode):
+    """Calls nested to depth d <= 100 in every syntactic position (name part,
+    argument of a known / unknown template, link text, argument default) under
+    every expansion mode: a str must come back within the bound.  The work per
+    level must not multiply: a position that is expanded twice per level costs
+    2**d."""
+    text = nest_text(d, kind)
+    ctx = env.new_ctx()
+    kw = {"all": {}, "pre_expand": {"pre_expand": True},
+          "only": {"pre_expand": True, "templates_to_expand": {"other"}},
+          "except": {"pre_expand": True, "templates_to_expand": {"tb", "other"},
+                     "templates_to_not_expand": {"tb"}},
+          "no-parserfns": {"pre_expand": True, "expand_parserfns": False}}[mode]
+    try:
+        ctx.add_page("Template:tb", 10, "<{{{1|}}}>")
+        ctx.add_page("Template:other", 10, "o")
+        ctx.start_page("Test page")
+        status, val, el = guard.call(ctx.expand, BOUND_S, text, **kw)
+    finally:
+        try:
+            ctx.close_db_conn()
+        except Exception:
+            pass
+    base = {"part": "graph", "class": "nested-positions", "mode": mode}
+    if status == "timeout":
+        return ({"kind": "timeout", **base},
+                f"{kind} nesting {d}, mode {mode}: expand() still running "
+                f"after {BOUND_S}s")
+    if status == "exc":
+        return ({"kind": "exception", **base, **exc_bucket(val)},
+                f"{kind} nesting {d}, mode {mode}: {exc_text(val)}")
+    if not isinstance(val, str):
+        return ({"kind": "not-str", **base}, repr(type(val)))
+    return None
+
+
 def small_graph_cases():
     """All call graphs on <=3 templates (adjacency incl. self loops), each
     edge realised as a plain call in the body; page calls template 0."""
@@ -531,6 +588,19 @@ def shard_graph(idx, nshards, seed, n_random, known, quick):
                 record(part, known, buckets, v[0], v[1],
                        {"part": "very-deep", "depth": d, "nest": kind}, d)
 
+    nest = [(d, kind, mode) for kind in NEST_KINDS for mode in NEST_MODES
+            for d in ((30, 90) if quick else (12, 30, 48, 64, 90, 100))]
+    for j, (d, kind, mode) in enumerate(nest):
+        if j % nshards == idx:
+            v = nested_case(d, kind, mode)
+            part.case(h(("nested", d, kind, mode)), True,
+                      classes=["graph:nested-positions:" + kind + ":" + mode],
+                      sample={"page": f"{kind} nesting {d} mode {mode}"})
+            if v is not None:
+                record(part, known, buckets, v[0], v[1],
+                       {"part": "nested", "depth": d, "nest": kind,
+                        "mode": mode}, d)
+
     def body(case):
         one(case[0], case[1], "random")
 
@@ -688,6 +758,12 @@ def replay(run, case):
         run.case(h([case["lib"], case["page"]]), True, sample={"page": text[:200]})
         if status == "viol":
             run.violation(detail[0], detail[1], case)
+    elif case["part"] == "nested":
+        v = nested_case(case["depth"], case["nest"], case["mode"])
+        run.case(h(("nested", case["depth"], case["nest"], case["mode"])), True,
+                 sample={"depth": case["depth"]})
+        if v is not None:
+            run.violation(v[0], v[1], case)
     elif case["part"] == "very-deep":
         v = very_deep_case(case["depth"], case.get("nest", "template"))
         run.case(h(("very-deep", case["depth"])), True,
